@@ -44,30 +44,33 @@ theorem get_one (cfg : Cfg) (now nc nn : Nat) (cl : List Nat) (c : PClient) :
               some ⟨nc, none, clock cfg now⟩) := by
   by_cases h : clock cfg now - c.lastUsed ≤ cfg.idleTimeout <;> simp [get, popFresh, h]
 
-theorem inv_call {cfg : Cfg} {s : St} (now : Nat) (b : Body) (h : Inv s) : Inv (call cfg s now b).1 := by
+theorem inv_callT {cfg : Cfg} {s : St} (now fin : Nat) (b : Body) (h : Inv s) : Inv (callT cfg s now fin b).1 := by
   rcases h.shape with ⟨nc, nn, cl, rfl⟩ | ⟨c, nc, nn, cl, rfl⟩
   · obtain ⟨-, -, h3, h4, -, h6, -, -⟩ := h
     simp only at h3 h4 h6
     by_cases hm : cfg.maxSize = 0
-    · simp only [call, get_nil, hm, if_true]
+    · simp only [callT, get_nil, hm, if_true]
       constructor <;> simp_all
-    · simp only [call, get_nil, hm, if_false]
+    · simp only [callT, get_nil, hm, if_false]
       rcases b with _ | (_|_) | (_|_) | _ | _ | (_|_) <;> simp [release, destroy, isUsed, dropUsed, connList]
       all_goals (constructor <;> simp_all <;> grind)
   · obtain ⟨-, -, h3, h4, h5, h6, h7, h8⟩ := h
     simp only at h3 h4 h5 h6 h7 h8
     obtain ⟨id, conn, lu⟩ := c
     by_cases hf : clock cfg now - lu ≤ cfg.idleTimeout
-    · simp only [call, get_one, hf, if_true]
+    · simp only [callT, get_one, hf, if_true]
       rcases b with _ | (_|_) | (_|_) | _ | _ | (_|_) <;> rcases conn with _ | k <;>
         simp [release, destroy, isUsed, dropUsed, connList]
       all_goals (constructor <;> simp_all <;> grind)
     · by_cases hm : cfg.maxSize = 0
-      · simp only [call, get_one, hm, hf, if_true, if_false]
+      · simp only [callT, get_one, hm, hf, if_true, if_false]
         rcases conn with _ | k <;> simp [connList] <;> (constructor <;> simp_all <;> grind)
-      · simp only [call, get_one, hm, hf, if_false]
+      · simp only [callT, get_one, hm, hf, if_false]
         rcases b with _ | (_|_) | (_|_) | _ | _ | (_|_) <;> rcases conn with _ | k <;>
           simp [release, destroy, isUsed, dropUsed, connList]
         all_goals (constructor <;> simp_all <;> grind)
+
+theorem inv_call {cfg : Cfg} {s : St} (now : Nat) (b : Body) (h : Inv s) : Inv (call cfg s now b).1 :=
+  inv_callT now now b h
 
 end Pooled
